@@ -1029,7 +1029,8 @@ class Frame:
             return True          # a display / an f-string is an object, never None
         k = t.key()
         # (a caught exception — ``except E as e`` — is an exception object)
-        return k == "self" or k == SELF.key() or k.startswith("new:") or k.startswith("exc-of(")
+        # (what confectioner.mix / set_dotted_key … hand back is a dictionary of theirs: never None, never a marker of this library)
+        return k == "self" or k == SELF.key() or k.startswith("new:") or k.startswith("exc-of(") or k.startswith("call:confectioner.mix(")
 
     def peek(self, e: ast.expr, p: Path) -> Optional[Term]:
         """Term of a side-effect-free name/attribute expression, else None."""
@@ -3487,6 +3488,9 @@ def iter_elems(it: Term) -> List[Term]:
 
 
 def exc_type_text(node: ast.expr, t: Term) -> str:
+    if isinstance(node, ast.Call) and isinstance(node.func, ast.Name) and isinstance(t, Sym) and (t.head.startswith("new:") or t.head == "exc-of"):
+        # ``raise error()`` with ``error`` a local factory (a lambda handed in): what the call produced says what is raised
+        return t.head[4:] if t.head.startswith("new:") else "EvaluationError?"
     if isinstance(node, ast.Call):
         return ast.unparse(node.func)
     if isinstance(t, Sym):
